@@ -19,6 +19,39 @@ def _extra(lines, verdicts):
         "refresh_ops_through_cluster_state": sum(ln.split("|")[0].count(" R/") for ln in lines),
     }
 
+# per-kind floors (quick, thorough): the evidence must not claim a generator part that did not run
+KIND_FLOORS = {"Hs": (7, 7), "Hx": (17080, 188145), "Hm": (17080, 188145), "Ha": (4913, 83521),
+               "Hr": (2000, 10000), "Hi": (2000, 10000), "Hl": (2000, 10000), "Hd": (2000, 10000)}
+
+def _post(lines, verdicts):
+    import os, sys
+    tier = os.environ.get("VERIF_TIER", "quick")
+    if "--tier" in sys.argv:
+        tier = sys.argv[sys.argv.index("--tier") + 1]
+    if "--replay" in sys.argv:
+        return []
+    idx = 1 if tier == "thorough" else 0
+    kinds = {}
+    for ln in lines:
+        k = ln.split(" ", 1)[0]
+        kinds[k] = kinds.get(k, 0) + 1
+    out = []
+    for k, fl in KIND_FLOORS.items():
+        if kinds.get(k, 0) < fl[idx]:
+            out.append(("diff", f"(generator part {k})", f"diff coverage-floor kind={k} got={kinds.get(k, 0)} expected>={fl[idx]}"))
+    # the tie must really have exercised what the evidence claims
+    steps = _steps(lines)
+    r_ops = sum(ln.split("|")[0].count(" R/") for ln in lines)
+    maint = sum(ln.count(" m~") for ln in lines)
+    rej = sum(ln.count(" rWrongTokenRange~") + ln.count(" rShardNum~") for ln in lines)
+    unk = sum(1 for ln in lines if "~1[" in ln)
+    for name, got, need in (("steps", steps, (400000, 3000000)[idx]), ("refresh-through-ClusterState", r_ops, (20000, 100000)[idx]),
+                            ("maintenance-steps", maint, (50000, 400000)[idx]), ("refused-payloads", rej, (5000, 50000)[idx]),
+                            ("histories-with-unknown-replicas", unk, (2000, 10000)[idx])):
+        if got < need:
+            out.append(("diff", f"(coverage {name})", f"diff coverage-floor {name} got={got} expected>={need}"))
+    return out
+
 SPEC = {
     "pid": "C15",
     "coq_targets": ["Props/C15.vo", "Extract/ExC15.vo"],
@@ -29,10 +62,10 @@ SPEC = {
     "rule": ("one case = one whole history run on a fresh TabletsInfo through hook H6 with the complete observation "
              "(flags, tablet list with replicas and unresolved replicas, tablet_for_token / replicas_for_token / "
              "dc_replicas_for_token of every watched token) after EVERY step, compared exactly with the extracted model. "
-             "Parts: Hs 7 scenario histories (incl. the two defects found by this check, F7/F8); Hx breadth-first over EVERY tablet "
+             "Learn steps run the REAL RawTablet::from_custom_payload + ClusterState::update_tablets. Parts: Hs 7 scenario histories (incl. the two defects found by this check, F7/F8); Hx breadth-first over EVERY tablet "
              "range set reachable in an 8-point (quick: 610 sets) / 10-point (thorough: 4181 sets) token universe (i64::MIN, MIN+1, "
              "-1, 0, 1, 5, MAX-1, MAX: single-token, touching, MAX-ending tablets) x every one of the 28 / 45 inserts, followed by a "
-             "maintenance step and a re-insert; Ha all histories of length 3 (quick) / 4 (thorough) over a 17-letter alphabet with "
+             "maintenance step and a re-insert; Hm every reachable set, then a maintenance step, then every insert; Ha all histories of length 3 (quick) / 4 (thorough) over a 17-letter alphabet with "
              "refused payloads and schema/topology maintenance; Hr/Hi/Hl/Hd seeded random histories (length 8..160) over the small "
              "universe and over full i64 with ScyllaDB-style equal splits, neighbours of used bounds, unknown replicas, removed / "
              "recreated nodes (Hd: also with datacenter change), schema changes, several tables; refreshes go through "
@@ -51,6 +84,8 @@ SPEC = {
         "payload bounds are i64 values (Forall op_i64 hist): they are decoded from 8 bytes",
         "the payload is modelled after CQL deserialisation (tuple<bigint,bigint,list<tuple<uuid,int>>>); malformed byte strings are C08/C17 territory",
     ],
+    "min_cases": {"quick": 45000, "thorough": 480000},
+    "post": _post,
     "extra_coverage": _extra,
 }
 
